@@ -29,7 +29,7 @@ from .. import gen as G
 
 PID = 'C06'
 RULE = ('cases = call histories on one solved object (2- and 3-component systems, two solver configurations): systematic part = every '
-        '(space state in 8, operation in 15) pair reached through a shortest transform prefix; random part = histories of length <= 8 quick / <= 16 thorough; '
+        '(space state in 8, operation in 15) pair reached through a shortest transform prefix; random part = histories of length <= 8 quick / <= 16 thorough, 30 % of them interleaved with operations on a second live object of the same System; '
         'non-trivial = history containing at least one in-place transform of a stored array (explicit or by a calculate function) followed by a compared '
         'value; distinct = distinct (system, solver, history) digests')
 ASSUMPTIONS = ['a deep copy of a solved object stands for a fresh identically solved object (verified once per system: an independent second solve is bit-identical)',
@@ -162,7 +162,7 @@ def cases(ctx):
         h = []
         for _ in range(int(rng.integers(2, maxlen + 1))):
             h.append(str(rng.choice(OPS)) if rng.random() < 0.75 else str(rng.choice(list(FLIPS) + ['resolve'])))
-        yield {'spec': int(rng.integers(0, nspec)), 'solver': str(rng.choice(solvers)), 'history': h, 'systematic': False}
+        yield {'spec': int(rng.integers(0, nspec)), 'solver': str(rng.choice(solvers)), 'history': h, 'systematic': False, 'twin': bool(rng.random() < 0.3)}
 
 
 def compare_value(ctx, op, got, ref, gmask, rtol, where):
@@ -206,7 +206,22 @@ def run_case(ctx, case):
     transformed = False
     compared_after_transform = False
     resolved = False
+    twin = copy.deepcopy(pristine) if case.get('twin') else None
+    trng = np.random.default_rng(len(case['history']))
     for step, op in enumerate(case['history']):
+        if twin is not None:
+            # another object of the same kind is being post-processed in between: nothing may leak from one object to the other
+            top = OPS[int(trng.integers(0, len(OPS) - 1))]
+            try:
+                with np.errstate(all='ignore'):
+                    if top in CALC:
+                        getattr(pyPRISM.calculate, CALC[top][0])(twin, **CALC[top][1])
+                    else:
+                        mm = getattr(twin, FLIPS[top])
+                        (twin.sys.domain.MatrixArray_to_fourier if mm.space == Space.Real else twin.sys.domain.MatrixArray_to_real)(mm)
+                ctx.hook('twin_object_operation')
+            except Exception:   # noqa - the twin's own problems are reported by histories in which it is the subject
+                pass
         before = capture(p)
         st = state_of(p)
         where = 'history %s step %d (%s) in state H=%s C=%s W=%s' % (case['history'], step, op, *st)
